@@ -95,14 +95,15 @@ Print Assumptions C01_dropping_a_drain_restores_prefix_and_suffix.
 
 (* ---- the history theorem: the machine refines the list model ---- *)
 
-(* what the vector holds, as a list of element identities; `vabs` also says that the block satisfies
-   the layout invariant and that the elements are initialised, live and pairwise distinct *)
+(* what the vector holds, as a list of element identities: `vacc s v l` = `vabs s v l` (the block
+   satisfies the layout invariant, the elements of l are initialised, live and pairwise distinct)
+   and `accounted s l` (every element created so far is in l, or was handed out, or was destroyed) *)
 Theorem C01_every_history_refines_the_list_model :
   forall cfg ncap, cfg_ok cfg -> policy_ok ncap -> needs_drop cfg = true ->
   forall v os s l,
-  vabs cfg s v l -> Forall rop_ok os ->
+  vacc cfg s v l -> Forall rop_ok os ->
   post (run_rops cfg ncap v os s)
-       (fun _ s' => exists l', rsteps os l l' /\ vabs cfg s' v l')
+       (fun _ s' => exists l', rsteps os l l' /\ vacc cfg s' v l')
        (fun _ => False).
 Proof. exact history_refines_list_spec. Qed.
 
@@ -110,9 +111,9 @@ Proof. exact history_refines_list_spec. Qed.
 Theorem C01_every_history_refines_the_list_model_regenerated_policy :
   forall cfg, cfg_ok cfg -> needs_drop cfg = true ->
   forall v os s l,
-  vabs cfg s v l -> Forall rop_ok os ->
+  vacc cfg s v l -> Forall rop_ok os ->
   post (run_rops cfg (ncap_of cfg) v os s)
-       (fun _ s' => exists l', rsteps os l l' /\ vabs cfg s' v l')
+       (fun _ s' => exists l', rsteps os l l' /\ vacc cfg s' v l')
        (fun _ => False).
 Proof. intros cfg Hc Hd. exact (history_refines_list_spec cfg (ncap_of cfg) Hc (ncap_policy cfg) Hd). Qed.
 
@@ -141,8 +142,8 @@ Theorem C01_pop_returns_the_last_element :
   forall cfg (ncap : Z -> option Z), cfg_ok cfg -> needs_drop cfg = true -> forall s v l,
   vabs cfg s v l ->
   post (pop cfg v s)
-    (fun r s' => (l = [] /\ r = None /\ vabs cfg s' v []) \/
-                 (exists l0 x, l = l0 ++ [x] /\ r = Some x /\ vabs cfg s' v l0 /\ ledger s' x = Out))
+    (fun r s' => (l = [] /\ r = None /\ vabs cfg s' v [] /\ s' = s) \/
+                 (exists l0 x, l = l0 ++ [x] /\ r = Some x /\ vabs cfg s' v l0 /\ ledger s' x = Out /\ only_changes s s' [x]))
     (fun _ => False).
 Proof. intros cfg ncap. exact (pop_abs cfg ncap). Qed.
 
@@ -150,7 +151,7 @@ Theorem C01_remove_returns_the_indexed_element :
   forall cfg, cfg_ok cfg -> needs_drop cfg = true -> forall s v l idx,
   vabs cfg s v l -> 0 <= idx ->
   post (remove cfg v idx s)
-    (fun r s' => nth_error l (Z.to_nat idx) = Some r /\ vabs cfg s' v (delete_at (Z.to_nat idx) l) /\ ledger s' r = Out)
+    (fun r s' => nth_error l (Z.to_nat idx) = Some r /\ vabs cfg s' v (delete_at (Z.to_nat idx) l) /\ ledger s' r = Out /\ only_changes s s' [r])
     (fun s' => Z.of_nat (List.length l) <= idx /\ s' = s).
 Proof. exact remove_abs. Qed.
 
@@ -159,7 +160,7 @@ Theorem C01_swap_remove_moves_the_last_element_into_the_hole :
   forall cfg, cfg_ok cfg -> needs_drop cfg = true -> forall s v l idx,
   vabs cfg s v l -> 0 <= idx ->
   post (swap_remove cfg v idx s)
-    (fun r s' => nth_error l (Z.to_nat idx) = Some r /\ vabs cfg s' v (swap_delete (Z.to_nat idx) l) /\ ledger s' r = Out)
+    (fun r s' => nth_error l (Z.to_nat idx) = Some r /\ vabs cfg s' v (swap_delete (Z.to_nat idx) l) /\ ledger s' r = Out /\ only_changes s s' [r])
     (fun s' => Z.of_nat (List.length l) <= idx /\ s' = s).
 Proof. exact swap_remove_abs. Qed.
 
@@ -175,14 +176,14 @@ Theorem C01_insert_any_capacity :
   forall cfg ncap, cfg_ok cfg -> policy_ok ncap -> needs_drop cfg = true -> forall s v l idx e,
   vabs cfg s v l -> ledger s e = Live -> ~ In e l -> e < next_elem s -> 0 <= idx ->
   post (insert cfg ncap v idx e s)
-    (fun _ s' => idx <= Z.of_nat (List.length l) /\ vabs cfg s' v (list_insert (Z.to_nat idx) e l))
-    (fun s' => vabs cfg s' v l).
+    (fun _ s' => idx <= Z.of_nat (List.length l) /\ vabs cfg s' v (list_insert (Z.to_nat idx) e l) /\ only_changes s s' [])
+    (fun s' => vabs cfg s' v l /\ ledger s' e = Dropped /\ only_changes s s' [e]).
 Proof. exact insert_abs. Qed.
 
 (* the premises are satisfiable: a freshly created vector abstracts to the empty list *)
 Example C01_new_vector_is_the_empty_list :
-  forall cfg s v, vec_sentinel s v -> vabs cfg s v [].
-Proof. intros cfg s v H. left. split; [exact H|reflexivity]. Qed.
+  forall cfg s v, vec_sentinel s v -> next_elem s = 0 -> vacc cfg s v [].
+Proof. intros cfg s v H H0. split; [left; split; [exact H|reflexivity]|]. split; [lia|]. intros e He. lia. Qed.
 
 Print Assumptions C01_every_history_refines_the_list_model.
 Print Assumptions C01_pop_returns_the_last_element.
